@@ -204,13 +204,10 @@ def run(res, tier):
         for l_ in f.walk():
             if l_['k'] != 'ForStmt' or l_.role('cond') is None:
                 continue
-            cond = A.strip_casts(l_.role('cond'))
-            if cond['k'] != 'BinaryOperator' or cond.get('op') not in ('<', '<='):
+            forms = [(a_, o_, b_) for (a_, o_, b_) in A.rel_forms(l_.role('cond'), True) if o_ in ('<', '<=') and a_['k'] == 'DeclRefExpr' and 'd' in a_]
+            if not forms:
                 continue
-            iv = A.strip_casts(cond['ch'][0])
-            bnd = A.strip_casts(cond['ch'][1])
-            if iv['k'] != 'DeclRefExpr' or 'd' not in iv:
-                continue
+            iv, _op, bnd = forms[0]
 
             def count_like(e, depth=0):
                 for x in e.walk():
